@@ -98,7 +98,6 @@ func (x *Exec) applyEffects(st *State, eff *Effects, locs []modLoc, elems []modE
 		x.havocAllHeaps(st)
 		return
 	}
-	allocPre := st.alloc
 	if eff.Allocates() {
 		na := x.fresh("alloc", SInt)
 		st.assume(Ge(na, st.alloc))
@@ -135,12 +134,6 @@ func (x *Exec) applyEffects(st *State, eff *Effects, locs []modLoc, elems []modE
 		} else {
 			x.havocHeap(st, name, elem)
 		}
-	}
-	for _, name := range sortedKeys(eff.Allocs) {
-		if _, w := eff.Writes[name]; w {
-			continue
-		}
-		x.linkFresh(st, name, eff.Allocs[name], func(r *Term) *Term { return Lt(r, allocPre) })
 	}
 }
 
